@@ -786,6 +786,12 @@ func (env *SpecEnv) call(c *ast.CallExpr) Val {
 		case "be64":
 			s, i := env.expr(c.Args[0]), env.expr(c.Args[1])
 			return intVal(types.Typ[types.Int], beTerm(fc, env.st, s, i.S, 8))
+		case "dl": // deadline (Unix nanoseconds) of a context value
+			d, _ := ctxDl(fc, env.expr(c.Args[0]))
+			return intVal(untypedInt, d)
+		case "hasdl": // whether a context value has a deadline
+			_, h := ctxDl(fc, env.expr(c.Args[0]))
+			return boolVal(h)
 		case "nanos": // Unix nanoseconds of a time.Time value
 			return intVal(untypedInt, tnanos(fc, env.expr(c.Args[0])))
 		case "tagof": // dynamic type tag of an interface value
